@@ -657,13 +657,14 @@ def quiet (sch : Schema) : Op → Bool
   | .remove _ _ _ => true
   | .clear _ _ => true
   | .set _ a _ => !sch.isKeyPart a
+  | .flush _ => true
   | _ => false
 
 theorem okInv_run1 (op : Op) (s : Store) (hq : quiet sch op = true) : OkInv sch s { store := s } (run1 sch op { store := s }) := by
   unfold run1
   dsimp only
   cases op with
-  | flush ids => cases hq
+  | flush ids => intro st' h g; cases h; exact ⟨g.save, Keep.refl _ _⟩
   | create e pk vals => cases hq
   | setMany o kw => cases hq
   | set o a v =>
@@ -723,4 +724,91 @@ theorem quiet_call_keeps (op : Op) (s : Store) (st' : St) (hq : quiet sch op = t
   exact ⟨h1, IdxOk.of_keep hk hd h2⟩
 
 end top
+
+/-! ### flush -/
+
+section flush
+
+theorem flushPk_fold (ids : List (ObjId × Nat)) (s : Store) (l : List ObjId) : ∀ (acc : Store),
+    (l.foldl (flushPk ids s) acc).n = acc.n ∧ (l.foldl (flushPk ids s) acc).row = acc.row ∧
+    (l.foldl (flushPk ids s) acc).idx = acc.idx ∧ (l.foldl (flushPk ids s) acc).cidx = acc.cidx := by
+  induction l with
+  | nil => intro acc; exact ⟨rfl, rfl, rfl, rfl⟩
+  | cons o l ih =>
+    intro acc
+    simp only [List.foldl_cons]
+    obtain ⟨h1, h2, h3, h4⟩ := ih (flushPk ids s acc o)
+    rw [h1, h2, h3, h4]
+    unfold flushPk
+    dsimp only
+    split
+    · split <;> exact ⟨rfl, rfl, rfl, rfl⟩
+    · split <;> exact ⟨rfl, rfl, rfl, rfl⟩
+    · exact ⟨rfl, rfl, rfl, rfl⟩
+
+theorem flushRow_spec (ids : List (ObjId × Nat)) (s : Store) (o : ObjId) :
+    (flushRow ids s o).val = (s.row o).val ∧ (flushRow ids s o).status.isDel = (s.row o).status.isDel ∧
+    ((s.row o).status.queued = true → (flushRow ids s o).savePos = none) ∧
+    ((s.row o).status.queued = false → (flushRow ids s o).savePos = (s.row o).savePos) := by
+  unfold flushRow
+  dsimp only
+  cases (s.row o).status <;> simp [Status.isDel, Status.queued]
+
+/-- flush keeps the well-formedness facts -/
+theorem flush_keeps (sch : Schema) (ids : List (ObjId × Nat)) (s : Store) (hs : SaveOk s) (hk : IdxOk sch s) (hd : IdxDom sch s) :
+    SaveOk (flush sch ids s) ∧ IdxOk sch (flush sch ids s) ∧ IdxDom sch (flush sch ids s) := by
+  unfold flush
+  split
+  · exact ⟨hs, hk, hd⟩
+  · obtain ⟨h1, h2, h3, h4⟩ := flushPk_fold ids s (List.range s.n) { s with row := flushRow ids s }
+    dsimp only
+    generalize List.foldl (flushPk ids s) { s with row := flushRow ids s } (List.range s.n) = F at h1 h2 h3 h4 ⊢
+    have h1' : F.n = s.n := h1
+    have h2' : F.row = flushRow ids s := h2
+    have h3' : F.idx = s.idx := h3
+    have h4' : F.cidx = s.cidx := h4
+    refine ⟨?_, ?_, ?_⟩
+    · intro o ho
+      have ho' : o < s.n := h1' ▸ ho
+      show (∀ p, (F.row o).savePos = some p → ([] : List (Option ObjId))[p]? = some (some o)) ∧ ((F.row o).status.queued = false → (F.row o).savePos = none)
+      rw [h2']
+      obtain ⟨_, _, f3, f4⟩ := flushRow_spec ids s o
+      have hnone : (flushRow ids s o).savePos = none := by
+        cases hq : (s.row o).status.queued
+        · rw [f4 hq]; exact (hs o ho').2 hq
+        · exact f3 hq
+      rw [hnone]
+      exact ⟨fun p hp => (by cases hp), fun _ => rfl⟩
+    · intro o ho hl
+      have ho' : o < s.n := h1' ▸ ho
+      obtain ⟨f1, f2, _, _⟩ := flushRow_spec ids s o
+      have hrow : (F.row o) = flushRow ids s o := by rw [h2']
+      have hl' : (s.row o).status.isDel = false := by
+        have : (F.row o).status.isDel = false := hl
+        rw [hrow, f2] at this; exact this
+      have hko := hk o ho' hl'
+      refine ⟨?_, ?_, ?_, ?_⟩
+      · intro a v e
+        show (F.row o).val a = some v
+        rw [hrow, f1]; exact hko.idxVal a v (h3' ▸ e)
+      · intro a u e hu
+        have e' : (F.row o).val a = some u := e
+        rw [hrow, f1] at e'
+        show F.idx a u = some o
+        rw [h3']; exact hko.valIdx a u e' hu
+      · intro k vs e
+        show tuple ((sch.keyAttrs k).map (F.row o).val) = some vs
+        rw [hrow, f1]; exact hko.cidxVal k vs (h4' ▸ e)
+      · intro k us e hlt
+        have e' : tuple ((sch.keyAttrs k).map (F.row o).val) = some us := e
+        rw [hrow, f1] at e'
+        show F.cidx k us = some o
+        rw [h4']; exact hko.valCidx k us e' hlt
+    · refine ⟨fun a v o e => ?_, fun k vs o e => ?_⟩
+      · have := hd.idx a v o (h3' ▸ e)
+        exact ⟨this.1, by show o < F.n; rw [h1']; exact this.2⟩
+      · have := hd.cidx k vs o (h4' ▸ e)
+        exact ⟨this.1, by show o < F.n; rw [h1']; exact this.2⟩
+
+end flush
 end PonyVerif.Model.Undo
